@@ -17,5 +17,11 @@ C24) TARGET=fz_zonefile ;;
 esac
 if [ "$TIER" = thorough ] && [ "${2:-}" != "--replay" ]; then
     /verif/scripts/fuzz.sh run "$TARGET" "${FUZZ_SECS:-120}" || exit 2
+    if [ "$ID" = C14 ]; then
+        # the unsafe name code under Miri on generated inputs (result folded into the evidence by vcheck)
+        rm -f /verif/.work/miri-names.json
+        /verif/scripts/miri_names.sh >/dev/null 2>&1
+        [ $? -eq 2 ] && exit 2
+    fi
 fi
 exec /verif/.target/debug/vcheck "$ID" "$@"
